@@ -1,7 +1,7 @@
 CONSTANTS
   NK = 3
   HMax = 2
-  MaxOps = 5
+  MaxOps = 4
   Full = TRUE
   BucketSize = 2
   LoadNum = 3
